@@ -74,6 +74,15 @@ class SwapModel:
             raise AnchorMissing("swap loop variable for role `%s` not found" % role)
         return self.roles[role]
 
+    def expand(self, t):
+        """A named temporary (not one of the loop's role variables) is replaced by what it is assigned in this context."""
+        t0 = strip(t)
+        if t0[0] == "var" and t0[2] not in self.roles.values():
+            ds = [x for (_, _, x) in self.pv.var_defs(t0[2])]
+            if ds:
+                return ds[0] if len(ds) == 1 else ("phi", frozenset(ds))
+        return t
+
     def is_var(self, t, role):
         t = strip(t)
         return t[0] == "var" and t[2] == self.roles.get(role)
